@@ -146,6 +146,9 @@ def run_case(ctx, g, rng):
         row = [rng.choice(OTHER) if rng.random() < 0.5 else str(i) for _ in range(ncols)]
         row[col] = cells[i]
         rows.append(row)
+    if rows and rng.random() < 0.12:
+        # U+FEFF as the first character of the first cell (of the header, when there is one): a character like any other
+        rows[0][0] = "\ufeff" + rows[0][0]
     feats = set()
     if any(c in x for r in rows for x in r for c in '",;|\t\n'):
         feats.add("quoting")
@@ -188,6 +191,8 @@ def run_case(ctx, g, rng):
     sep = rng.choice(SEPS)
     header = rng.random() < 0.6
     head = [rng.choice(["h", "uri", "", "h\nx", "a b"]) + str(j) for j in range(ncols)] if header else None
+    if head and rng.random() < 0.12:
+        head[0] = "\ufeff" + head[0]
     lt = rng.choice(["\n", "\r\n"])
     for meth in ("file_compress", "file_expand"):
         strict, pt = rng.choice([(False, False), (False, True), (True, False), (True, True)])
